@@ -357,6 +357,33 @@ func (g *gen) havocAll(st *State, hint string) {
 	}
 }
 
+// fieldAddrPrivate: the field address is only used to load or store the field.
+func fieldAddrPrivate(fa *ssa.FieldAddr, depth int) bool {
+	if depth > 4 {
+		return false
+	}
+	refs := fa.Referrers()
+	if refs == nil {
+		return true
+	}
+	for _, r := range *refs {
+		switch u := r.(type) {
+		case *ssa.UnOp, *ssa.DebugRef:
+		case *ssa.Store:
+			if u.Addr != ssa.Value(fa) {
+				return false
+			}
+		case *ssa.FieldAddr:
+			if !fieldAddrPrivate(u, depth+1) {
+				return false
+			}
+		default:
+			return false
+		}
+	}
+	return true
+}
+
 // freeVarReadOnly: the closure only loads through this captured address.
 func freeVarReadOnly(fv *ssa.FreeVar, depth int) bool {
 	if depth > 3 {
@@ -398,7 +425,7 @@ type privCell struct {
 func isPrivateCell(x *ssa.Alloc) bool {
 	et := x.Type().(*types.Pointer).Elem()
 	switch et.Underlying().(type) {
-	case *types.Struct, *types.Array:
+	case *types.Array:
 		return false
 	}
 	refs := x.Referrers()
@@ -413,6 +440,10 @@ func isPrivateCell(x *ssa.Alloc) bool {
 			}
 		case *ssa.UnOp:
 		case *ssa.DebugRef:
+		case *ssa.FieldAddr:
+			if !fieldAddrPrivate(u, 0) {
+				return false
+			}
 		case *ssa.MakeClosure:
 			// which free variable(s) of the closure is this cell bound to?
 			fn, _ := u.Fn.(*ssa.Function)
